@@ -67,7 +67,7 @@ package tmmirror
 // ---- proposed headers (C04): what the mirror hands to the kernel extends the header the kernel is committing ----
 // The kernel reports, with its check response, the hash the proposed header has to name as its predecessor
 // (the committing header's hash for the voting and next-round views; nothing at the initial height).
-//@ chaninv Mirror.addPHRequests(v): v.Header.Height == m.initialHeight || checkResp.PrevBlockHash == nil || bytes(v.Header.PrevBlockHash) == bytes(checkResp.PrevBlockHash)
+//@ chaninv[C04] Mirror.addPHRequests(v): v.Header.Height == m.initialHeight || checkResp.PrevBlockHash == nil || bytes(v.Header.PrevBlockHash) == bytes(checkResp.PrevBlockHash)
 //@ iface tmconsensus.SignatureScheme.WriteProposalSigningContent(s, w, h, round, annotations)
 //@   modifies nothing
 //@ iface gcrypto.CommonMessageSignatureProofScheme.ValidateFinalizedProof(sch, proof, hashesBySignContent)
